@@ -327,7 +327,7 @@ class ClassInfo:
 
 
 class Module:
-    def __init__(self, name: str, path: str, rel: str, source: str, unstable_attrs: Optional[set] = None) -> None:
+    def __init__(self, name: str, path: str, rel: str, source: str, unstable_attrs: Optional[set] = None, external_names: Optional[set] = None) -> None:
         self.name = name
         self.path = path
         self.rel = rel
@@ -336,14 +336,15 @@ class Module:
         tree = ast.parse(source, filename=path)
         from .inl import inline_unknown_helpers
 
-        self.inlined_calls, self.inlined_helpers = inline_unknown_helpers(tree)
+        self.inlined_calls, self.inlined_helpers = inline_unknown_helpers(tree, external_names)
         st = _StripTypeChecking()
         cn = _Canonical()
         tree = ast.fix_missing_locations(cn.visit(st.visit(tree)))
-        from .lp import propagate_locals, baseline_keep
+        from .lp import propagate_locals, baseline_keep, unroll_literal_loops
 
+        self.unrolled_loops = unroll_literal_loops(tree)
         self.propagated_locals, self.propagated_names = propagate_locals(tree, baseline_keep(rel), unstable_attrs)
-        if self.propagated_locals:
+        if self.propagated_locals or self.unrolled_loops:
             tree = ast.fix_missing_locations(_Canonical().visit(tree))
         self.tree = tree
         self.type_checking_blocks = st.stripped
@@ -402,8 +403,15 @@ class Program:
             except SyntaxError as e:
                 raise AnalysisError(f'{rel} does not parse: {e}') from e
         self.unstable_attrs = unstable
+        from .inl import names_used
+
+        used = {modrel: names_used(ast.parse(src, filename=full)) for modrel, full, rel, src in sources}
         for modrel, full, rel, src in sources:
-            self.modules[modrel] = Module(modrel, full, rel, src, unstable)
+            ext: set = set()
+            for other, names in used.items():
+                if other != modrel:
+                    ext |= names
+            self.modules[modrel] = Module(modrel, full, rel, src, unstable, ext)
         if shadows:
             raise AnalysisError(
                 'compiled extension(s) shadow analysed modules; the executed program is not the analysed one: '
